@@ -1,6 +1,6 @@
 (** C09 — the persistence format round-trips exactly and rejects garbage safely. *)
 From Coq Require Import List Arith Bool NArith ZArith Lia.
-From Pike Require Import Base.Bytes Model.MaxAge Model.Resp Model.Codec Proofs.CodecProofs.
+From Pike Require Import Base.Bytes Model.MaxAge Model.Resp Model.Codec Proofs.CodecProofs Proofs.CodecBound.
 Import ListNotations.
 
 Section C09.
@@ -35,7 +35,25 @@ Section C09.
       (n < length (encode_entry hdr_enc e))%nat ->
       snd (decode_entry hdr_dec regex_ok e0 (firstn n (encode_entry hdr_enc e))) = false.
   Proof. exact (truncation_detected hdr_enc hdr_dec regex_ok). Qed.
+
+  (** Allocation clause: for EVERY byte string (valid, truncated, bit-flipped,
+      arbitrary) the byte fields of the decoded response — compress-profile
+      name, filter source and the three body variants — are slices of the
+      input and together never longer than it; the entry decoder installs
+      either such a response or keeps the receiver's. *)
+  Theorem C09_decoded_response_within_input : forall data,
+    (body_bytes (fst (decode_resp hdr_dec regex_ok empty_presp data)) <= length data)%nat.
+  Proof. exact (decode_resp_bounded hdr_dec regex_ok). Qed.
+
+  Theorem C09_decoded_entry_within_input : forall e data,
+    match pe_resp (fst (decode_entry hdr_dec regex_ok e data)) with
+    | Some r => (body_bytes r <= length data)%nat \/ Some r = pe_resp e
+    | None => True
+    end.
+  Proof. exact (decode_entry_bounded hdr_dec regex_ok). Qed.
 End C09.
+Print Assumptions C09_decoded_response_within_input.
+Print Assumptions C09_decoded_entry_within_input.
 Print Assumptions C09_response_roundtrip.
 Print Assumptions C09_entry_roundtrip.
 Print Assumptions C09_truncation_detected.
